@@ -95,7 +95,7 @@ Proof. vm_compute. split; reflexivity. Qed.
 (* ------------------------------------------------------------------------------------------------------
    Added in build session 4 (statements re-stated from the proof files by harness tooling; each is closed by
    exact). *)
-From SplipyModel Require Import Transfer.ParamObj Transfer.ParamOps Transfer.ParamOps2.
+From SplipyModel Require Import Transfer.ParamObj Transfer.ParamOps Transfer.ParamOps2 Spec.Deriv Model.Loft Model.InterpMore Proofs.ObjEval Proofs.LoftProofs Proofs.InterpMoreProofs Transfer.ParamLoft.
 Open Scope R_scope.
 Theorem C14_executed_is_proved_interpolate :
   forall (tol : Q) (b : basis Q) (ts : list Q) (x : list (list Q)),
@@ -123,4 +123,445 @@ Theorem C14_executed_is_proved_surface_interpolate :
          surface_interpolate (Q2R tol) (basisQ2R bu) (basisQ2R bv) (map Q2R us) (map Q2R vs) (map (map Q2R) x).
 Proof. exact @surface_interpolate_transfer. Qed.
 Print Assumptions C14_executed_is_proved_surface_interpolate.
+
+Theorem C14_loft_passes_through_sections :
+  forall (tol : R) (curves : list (obj R)) (dist : list R) (S0 : obj R),
+         loft_core tol curves dist = Ok S0 ->
+         forall (b1 : basis R) (rat : bool) (dim : nat),
+         (forall c : obj R,
+          In c curves ->
+          o_bases c = [b1] /\
+          o_dim c = dim /\ o_rat c = rat /\ mat (b_nfun b1) (dim + (if rat then 1%nat else 0%nat)) (o_cps c)) ->
+         (0 < b_nfun b1)%nat ->
+         length dist = length curves ->
+         sorted (kn (b_knots (loft_basis (length curves) dist))) ->
+         0 < tol ->
+         forall (j : nat) (u : R) (vS : list R),
+         (j < length curves)%nat ->
+         obj_eval tol S0 [u; nth j (loft_params (length curves) dist) 0] = Ok vS ->
+         obj_eval tol (nth j curves dflt_obj) [u] = Ok vS.
+Proof. exact @loft_passes_through_sections. Qed.
+Print Assumptions C14_loft_passes_through_sections.
+
+Theorem C14_loft_set_dimension_passes_through_sections :
+  forall (tol : R) (curves : list (obj R)) (dist : list R) (S0 : obj R) (b1 : basis R) 
+           (rat : bool) (dim j : nat) (u : R) (vS : list R),
+         loft tol curves dist = Ok S0 ->
+         (forall c : obj R,
+          In c curves ->
+          o_bases c = [b1] /\
+          o_dim c = dim /\ o_rat c = rat /\ mat (b_nfun b1) (dim + (if rat then 1%nat else 0%nat)) (o_cps c)) ->
+         (0 < b_nfun b1)%nat ->
+         length dist = length curves ->
+         sorted (kn (b_knots (loft_basis (length curves) dist))) ->
+         0 < tol ->
+         (j < length curves)%nat ->
+         obj_eval tol S0 [u; nth j (loft_params (length curves) dist) 0] = Ok vS ->
+         obj_eval tol (Affine.obj_set_dimension (nth j curves dflt_obj) 3) [u] = Ok vS.
+Proof. exact @loft_set_dimension_passes_through_sections. Qed.
+Print Assumptions C14_loft_set_dimension_passes_through_sections.
+
+Theorem C14_vloft_passes_through_sections :
+  forall (tol : R) (surfs : list (obj R)) (dist : list R) (S0 : obj R),
+         vloft_core tol surfs dist = Ok S0 ->
+         forall (b1 b2 : basis R) (rat : bool) (dim : nat),
+         (forall s : obj R,
+          In s surfs ->
+          o_bases s = [b1; b2] /\
+          o_dim s = dim /\
+          o_rat s = rat /\ mat (b_nfun b1 * b_nfun b2) (dim + (if rat then 1%nat else 0%nat)) (o_cps s)) ->
+         (0 < b_nfun b1)%nat ->
+         (0 < b_nfun b2)%nat ->
+         length dist = length surfs ->
+         sorted (kn (b_knots (loft_basis (length surfs) dist))) ->
+         0 < tol ->
+         forall (j : nat) (u v : R) (vS : list R),
+         (j < length surfs)%nat ->
+         obj_eval tol S0 [u; v; nth j (loft_params (length surfs) dist) 0] = Ok vS ->
+         obj_eval tol (nth j surfs dflt_obj) [u; v] = Ok vS.
+Proof. exact @vloft_passes_through_sections. Qed.
+Print Assumptions C14_vloft_passes_through_sections.
+
+Theorem C14_cubic_passes_through :
+  forall (tol : R) (bt : nat) (t : list R) (x tang : list (list R)) (o : obj R),
+         cubic_curve tol bt t x tang = Ok o ->
+         In bt [0%nat; 1%nat; 2%nat; 4%nat; 5%nat] ->
+         length x = length t ->
+         (2 <= length t)%nat ->
+         sorted (kn (cubic_knots bt t)) ->
+         0 < tol ->
+         (bt = 2%nat -> length tang = length t) ->
+         forall (i : nat) (v : list R),
+         (i < length t)%nat ->
+         obj_eval tol o [nth i t 0] = Ok v ->
+         forall c : nat, (c < length (hd [] x))%nat -> coord c v = nth c (nth i x []) 0.
+Proof. exact @cubic_passes_through. Qed.
+Print Assumptions C14_cubic_passes_through.
+
+Theorem C14_cubic_natural_ends :
+  forall (tol : R) (bt : nat) (t : list R) (x tang : list (list R)) (o : obj R),
+         cubic_curve tol bt t x tang = Ok o ->
+         In bt [0%nat; 1%nat; 2%nat; 4%nat; 5%nat] ->
+         length x = length t ->
+         (2 <= length t)%nat ->
+         sorted (kn (cubic_knots bt t)) ->
+         0 < tol ->
+         (bt = 2%nat -> length tang = length t) ->
+         forall v : list R,
+         bt = 1%nat ->
+         (obj_deriv tol o [2%nat] [true] [hd 0 t] = Ok v -> forall c : nat, (c < length (hd [] x))%nat -> coord c v = 0) /\
+         (obj_deriv tol o [2%nat] [true] [last t 0] = Ok v ->
+          forall c : nat, (c < length (hd [] x))%nat -> coord c v = 0).
+Proof. exact @cubic_natural_ends. Qed.
+Print Assumptions C14_cubic_natural_ends.
+
+Theorem C14_cubic_tangent_ends :
+  forall (tol : R) (bt : nat) (t : list R) (x tang : list (list R)) (o : obj R),
+         cubic_curve tol bt t x tang = Ok o ->
+         In bt [0%nat; 1%nat; 2%nat; 4%nat; 5%nat] ->
+         length x = length t ->
+         (2 <= length t)%nat ->
+         sorted (kn (cubic_knots bt t)) ->
+         0 < tol ->
+         (bt = 2%nat -> length tang = length t) ->
+         forall v : list R,
+         bt = 4%nat ->
+         length tang = 2%nat ->
+         (obj_deriv tol o [1%nat] [true] [hd 0 t] = Ok v ->
+          forall c : nat, (c < length (hd [] x))%nat -> coord c v = nth c (nth 0 tang []) 0) /\
+         (obj_deriv tol o [1%nat] [true] [last t 0] = Ok v ->
+          forall c : nat, (c < length (hd [] x))%nat -> coord c v = nth c (nth 1 tang []) 0).
+Proof. exact @cubic_tangent_ends. Qed.
+Print Assumptions C14_cubic_tangent_ends.
+
+Theorem C14_cubic_hermite_tangents :
+  forall (tol : R) (bt : nat) (t : list R) (x tang : list (list R)) (o : obj R),
+         cubic_curve tol bt t x tang = Ok o ->
+         In bt [0%nat; 1%nat; 2%nat; 4%nat; 5%nat] ->
+         length x = length t ->
+         (2 <= length t)%nat ->
+         sorted (kn (cubic_knots bt t)) ->
+         0 < tol ->
+         (bt = 2%nat -> length tang = length t) ->
+         forall (i : nat) (v : list R),
+         bt = 2%nat ->
+         (i < length t)%nat ->
+         obj_deriv tol o [1%nat] [true] [nth i t 0] = Ok v ->
+         forall c : nat, (c < length (hd [] x))%nat -> coord c v = nth c (nth i tang []) 0.
+Proof. exact @cubic_hermite_tangents. Qed.
+Print Assumptions C14_cubic_hermite_tangents.
+
+Theorem C14_cubic_tangentnatural_ends :
+  forall (tol : R) (bt : nat) (t : list R) (x tang : list (list R)) (o : obj R),
+         cubic_curve tol bt t x tang = Ok o ->
+         In bt [0%nat; 1%nat; 2%nat; 4%nat; 5%nat] ->
+         length x = length t ->
+         (2 <= length t)%nat ->
+         sorted (kn (cubic_knots bt t)) ->
+         0 < tol ->
+         (bt = 2%nat -> length tang = length t) ->
+         forall v : list R,
+         bt = 5%nat ->
+         length tang = 1%nat ->
+         (obj_deriv tol o [1%nat] [true] [hd 0 t] = Ok v ->
+          forall c : nat, (c < length (hd [] x))%nat -> coord c v = nth c (nth 0 tang []) 0) /\
+         (obj_deriv tol o [2%nat] [true] [last t 0] = Ok v ->
+          forall c : nat, (c < length (hd [] x))%nat -> coord c v = 0).
+Proof. exact @cubic_tangentnatural_ends. Qed.
+Print Assumptions C14_cubic_tangentnatural_ends.
+
+Theorem C14_cubic_natural_spec :
+  forall (tol : R) (bt : nat) (t : list R) (x tang : list (list R)) (o : obj R),
+         cubic_curve tol bt t x tang = Ok o ->
+         In bt [1%nat; 4%nat; 5%nat] ->
+         length x = length t ->
+         (2 <= length t)%nat ->
+         sorted (kn (cubic_knots bt t)) ->
+         0 < tol ->
+         tol <= last t 0 - hd 0 t ->
+         forall c : nat,
+         bt = 1%nat ->
+         (c < length (hd [] x))%nat ->
+         sumf (fun i : nat => dB true (kn (cubic_knots bt t)) 2 3 i (hd 0 t) * coord c (nth i (o_cps o) [])) 0
+           (length t + 2) = 0 /\
+         sumf (fun i : nat => dB false (kn (cubic_knots bt t)) 2 3 i (last t 0) * coord c (nth i (o_cps o) [])) 0
+           (length t + 2) = 0.
+Proof. exact @cubic_natural_spec. Qed.
+Print Assumptions C14_cubic_natural_spec.
+
+Theorem C14_cubic_tangent_spec :
+  forall (tol : R) (bt : nat) (t : list R) (x tang : list (list R)) (o : obj R),
+         cubic_curve tol bt t x tang = Ok o ->
+         In bt [1%nat; 4%nat; 5%nat] ->
+         length x = length t ->
+         (2 <= length t)%nat ->
+         sorted (kn (cubic_knots bt t)) ->
+         0 < tol ->
+         tol <= last t 0 - hd 0 t ->
+         forall c : nat,
+         bt = 4%nat ->
+         length tang = 2%nat ->
+         (c < length (hd [] x))%nat ->
+         sumf (fun i : nat => dB true (kn (cubic_knots bt t)) 1 3 i (hd 0 t) * coord c (nth i (o_cps o) [])) 0
+           (length t + 2) = nth c (nth 0 tang []) 0 /\
+         sumf (fun i : nat => dB false (kn (cubic_knots bt t)) 1 3 i (last t 0) * coord c (nth i (o_cps o) [])) 0
+           (length t + 2) = nth c (nth 1 tang []) 0.
+Proof. exact @cubic_tangent_spec. Qed.
+Print Assumptions C14_cubic_tangent_spec.
+
+Theorem C14_cubic_tangentnatural_spec :
+  forall (tol : R) (bt : nat) (t : list R) (x tang : list (list R)) (o : obj R),
+         cubic_curve tol bt t x tang = Ok o ->
+         In bt [1%nat; 4%nat; 5%nat] ->
+         length x = length t ->
+         (2 <= length t)%nat ->
+         sorted (kn (cubic_knots bt t)) ->
+         0 < tol ->
+         tol <= last t 0 - hd 0 t ->
+         forall c : nat,
+         bt = 5%nat ->
+         length tang = 1%nat ->
+         (c < length (hd [] x))%nat ->
+         sumf (fun i : nat => dB true (kn (cubic_knots bt t)) 1 3 i (hd 0 t) * coord c (nth i (o_cps o) [])) 0
+           (length t + 2) = nth c (nth 0 tang []) 0 /\
+         sumf (fun i : nat => dB false (kn (cubic_knots bt t)) 2 3 i (last t 0) * coord c (nth i (o_cps o) [])) 0
+           (length t + 2) = 0.
+Proof. exact @cubic_tangentnatural_spec. Qed.
+Print Assumptions C14_cubic_tangentnatural_spec.
+
+Theorem C14_cubic_periodic_passes_through :
+  forall (tol : R) (t : list R) (x : list (list R)) (o : obj R),
+         cubic_periodic tol t x = Ok o ->
+         (4 <= length t)%nat ->
+         sorted (kn (cubic_periodic_knots t)) ->
+         0 < tol ->
+         length x = length t ->
+         forall (i : nat) (v : list R),
+         (i < length t - 1)%nat ->
+         obj_eval tol o [nth i t 0] = Ok v ->
+         forall c : nat, (c < length (hd [] x))%nat -> coord c v = nth c (nth i x []) 0.
+Proof. exact @cubic_periodic_passes_through. Qed.
+Print Assumptions C14_cubic_periodic_passes_through.
+
+Theorem C14_cubic_periodic_closed_C2 :
+  forall (tol : R) (t : list R) (x : list (list R)) (o : obj R),
+         cubic_periodic tol t x = Ok o ->
+         (4 <= length t)%nat ->
+         sorted (kn (cubic_periodic_knots t)) ->
+         hd 0 t < nth 1 t 0 ->
+         nth (length t - 2) t 0 < last t 0 ->
+         0 < tol ->
+         tol <= last t 0 - hd 0 t ->
+         length x = length t ->
+         forall r : nat,
+         (r <= 2)%nat ->
+         exists v : list R, obj_deriv tol o [r] [true] [hd 0 t] = Ok v /\ obj_deriv tol o [r] [false] [last t 0] = Ok v.
+Proof. exact @cubic_periodic_closed_C2. Qed.
+Print Assumptions C14_cubic_periodic_closed_C2.
+
+Theorem C14_volume_interp_passes :
+  forall (tol : R) (bu bv bw : basis R) (us vs ws : list R) (x : list (list R)) (o : obj R),
+         volume_interpolate tol bu bv bw us vs ws x = Ok o ->
+         length us = b_nfun bu ->
+         length vs = b_nfun bv ->
+         length ws = b_nfun bw ->
+         (0 < b_nfun bu)%nat ->
+         (0 < b_nfun bv)%nat ->
+         (0 < b_nfun bw)%nat ->
+         mat (b_nfun bu * b_nfun bv * b_nfun bw) (length (hd [] x)) x ->
+         forall i j k c : nat,
+         (i < b_nfun bu)%nat ->
+         (j < b_nfun bv)%nat ->
+         (k < b_nfun bw)%nat ->
+         (c < length (hd [] x))%nat ->
+         coord c
+           (teval (length (hd [] x))
+              [nth i (colloc tol bu 0 us) []; nth j (colloc tol bv 0 vs) []; nth k (colloc tol bw 0 ws) []] 
+              (o_cps o)) = coord c (nth ((i * b_nfun bv + j) * b_nfun bw + k) x []) /\ o_bases o = [bu; bv; bw].
+Proof. exact @volume_interp_passes. Qed.
+Print Assumptions C14_volume_interp_passes.
+
+Theorem C14_volume_interp_eval :
+  forall (tol : R) (bu bv bw : basis R) (us vs ws : list R) (x : list (list R)) (o : obj R),
+         volume_interpolate tol bu bv bw us vs ws x = Ok o ->
+         length us = b_nfun bu ->
+         length vs = b_nfun bv ->
+         length ws = b_nfun bw ->
+         (0 < b_nfun bu)%nat ->
+         (0 < b_nfun bv)%nat ->
+         (0 < b_nfun bw)%nat ->
+         mat (b_nfun bu * b_nfun bv * b_nfun bw) (length (hd [] x)) x ->
+         forall (i j k : nat) (v : list R),
+         sorted (kn (b_knots bu)) ->
+         sorted (kn (b_knots bv)) ->
+         sorted (kn (b_knots bw)) ->
+         0 < tol ->
+         (i < b_nfun bu)%nat ->
+         (j < b_nfun bv)%nat ->
+         (k < b_nfun bw)%nat ->
+         obj_eval tol o [nth i us 0; nth j vs 0; nth k ws 0] = Ok v ->
+         forall c : nat,
+         (c < length (hd [] x))%nat -> coord c v = coord c (nth ((i * b_nfun bv + j) * b_nfun bw + k) x []).
+Proof. exact @volume_interp_eval. Qed.
+Print Assumptions C14_volume_interp_eval.
+
+Theorem C14_surface_interp_eval :
+  forall (tol : R) (bu bv : basis R) (us vs : list R) (x : list (list R)) (o : obj R) (i j : nat) (v : list R),
+         surface_interpolate tol bu bv us vs x = Ok o ->
+         length us = b_nfun bu ->
+         length vs = b_nfun bv ->
+         (0 < b_nfun bu)%nat ->
+         (0 < b_nfun bv)%nat ->
+         mat (b_nfun bu * b_nfun bv) (length (hd [] x)) x ->
+         sorted (kn (b_knots bu)) ->
+         sorted (kn (b_knots bv)) ->
+         0 < tol ->
+         (i < b_nfun bu)%nat ->
+         (j < b_nfun bv)%nat ->
+         obj_eval tol o [nth i us 0; nth j vs 0] = Ok v ->
+         forall c : nat, (c < length (hd [] x))%nat -> coord c v = coord c (nth (i * b_nfun bv + j) x []).
+Proof. exact @surface_interp_eval. Qed.
+Print Assumptions C14_surface_interp_eval.
+
+Theorem C14_surface_lsq_normal_equations :
+  forall (tol : R) (bu bv : basis R) (us vs : list R) (x : list (list R)) (o : obj R),
+         surface_lsq tol bu bv us vs x = Ok o ->
+         (0 < b_nfun bu)%nat ->
+         (0 < b_nfun bv)%nat ->
+         (0 < length us)%nat ->
+         (0 < length vs)%nat ->
+         mat (length us * length vs) (length (hd [] x)) x ->
+         forall a b c : nat,
+         (a < b_nfun bu)%nat ->
+         (b < b_nfun bv)%nat ->
+         (c < length (hd [] x))%nat ->
+         tsum
+           [nth a (matmul (transpose (b_nfun bu) (colloc tol bu 0 us)) (colloc tol bu 0 us)) [];
+            nth b (matmul (transpose (b_nfun bv) (colloc tol bv 0 vs)) (colloc tol bv 0 vs)) []]
+           (cnet (length (hd [] x)) c (o_cps o)) =
+         tsum
+           [nth a (transpose (b_nfun bu) (colloc tol bu 0 us)) [];
+            nth b (transpose (b_nfun bv) (colloc tol bv 0 vs)) []] (cnet (length (hd [] x)) c x).
+Proof. exact @surface_lsq_normal_equations. Qed.
+Print Assumptions C14_surface_lsq_normal_equations.
+
+Theorem C14_surface_lsq_projection :
+  forall (tol : R) (bu bv : basis R) (us vs : list R) (x : list (list R)) (o : obj R),
+         surface_lsq tol bu bv us vs x = Ok o ->
+         (0 < b_nfun bu)%nat ->
+         (0 < b_nfun bv)%nat ->
+         (0 < length us)%nat ->
+         (0 < length vs)%nat ->
+         mat (length us * length vs) (length (hd [] x)) x ->
+         forall c0 : list (list R),
+         okn (length (hd [] x)) [b_nfun bu; b_nfun bv] c0 ->
+         x =
+         apply_dir (length (hd [] x)) [b_nfun bu; length vs] 0 (colloc tol bu 0 us)
+           (apply_dir (length (hd [] x)) [b_nfun bu; b_nfun bv] 1 (colloc tol bv 0 vs) c0) -> 
+         o_cps o = c0.
+Proof. exact @surface_lsq_projection. Qed.
+Print Assumptions C14_surface_lsq_projection.
+
+Theorem C14_volume_lsq_normal_equations :
+  forall (tol : R) (bu bv bw : basis R) (us vs ws : list R) (x : list (list R)) (o : obj R),
+         volume_lsq tol bu bv bw us vs ws x = Ok o ->
+         (0 < b_nfun bu)%nat ->
+         (0 < b_nfun bv)%nat ->
+         (0 < b_nfun bw)%nat ->
+         (0 < length us)%nat ->
+         (0 < length vs)%nat ->
+         (0 < length ws)%nat ->
+         mat (length us * length vs * length ws) (length (hd [] x)) x ->
+         forall a b c e : nat,
+         (a < b_nfun bu)%nat ->
+         (b < b_nfun bv)%nat ->
+         (c < b_nfun bw)%nat ->
+         (e < length (hd [] x))%nat ->
+         tsum
+           [nth a (matmul (transpose (b_nfun bu) (colloc tol bu 0 us)) (colloc tol bu 0 us)) [];
+            nth b (matmul (transpose (b_nfun bv) (colloc tol bv 0 vs)) (colloc tol bv 0 vs)) [];
+            nth c (matmul (transpose (b_nfun bw) (colloc tol bw 0 ws)) (colloc tol bw 0 ws)) []]
+           (cnet (length (hd [] x)) e (o_cps o)) =
+         tsum
+           [nth a (transpose (b_nfun bu) (colloc tol bu 0 us)) [];
+            nth b (transpose (b_nfun bv) (colloc tol bv 0 vs)) [];
+            nth c (transpose (b_nfun bw) (colloc tol bw 0 ws)) []] (cnet (length (hd [] x)) e x).
+Proof. exact @volume_lsq_normal_equations. Qed.
+Print Assumptions C14_volume_lsq_normal_equations.
+
+Theorem C14_volume_lsq_projection :
+  forall (tol : R) (bu bv bw : basis R) (us vs ws : list R) (x : list (list R)) (o : obj R),
+         volume_lsq tol bu bv bw us vs ws x = Ok o ->
+         (0 < b_nfun bu)%nat ->
+         (0 < b_nfun bv)%nat ->
+         (0 < b_nfun bw)%nat ->
+         (0 < length us)%nat ->
+         (0 < length vs)%nat ->
+         (0 < length ws)%nat ->
+         mat (length us * length vs * length ws) (length (hd [] x)) x ->
+         forall c0 : list (list R),
+         okn (length (hd [] x)) [b_nfun bu; b_nfun bv; b_nfun bw] c0 ->
+         x =
+         apply_dir (length (hd [] x)) [b_nfun bu; length vs; length ws] 0 (colloc tol bu 0 us)
+           (apply_dir (length (hd [] x)) [b_nfun bu; b_nfun bv; length ws] 1 (colloc tol bv 0 vs)
+              (apply_dir (length (hd [] x)) [b_nfun bu; b_nfun bv; b_nfun bw] 2 (colloc tol bw 0 ws) c0)) ->
+         o_cps o = c0.
+Proof. exact @volume_lsq_projection. Qed.
+Print Assumptions C14_volume_lsq_projection.
+
+Theorem C14_manipulate_interpolates :
+  forall (tol : R) (crv : obj R) (f : list R -> R -> list R) (d : nat) (o : obj R) (i : nat) (p v : list R),
+         manipulate_xt tol crv f = Ok o ->
+         let b := hd dflt_bas (o_bases crv) in
+         (0 < b_nfun b)%nat ->
+         sorted (kn (b_knots b)) ->
+         0 < tol ->
+         (forall (q : list R) (s : R), length (f q s) = d) ->
+         (i < b_nfun b)%nat ->
+         let g := nth i (greville_all b) 0 in
+         obj_eval tol crv [g] = Ok p ->
+         obj_eval tol o [g] = Ok v -> forall c : nat, (c < d)%nat -> coord c v = nth c (f p g) 0.
+Proof. exact @manipulate_interpolates. Qed.
+Print Assumptions C14_manipulate_interpolates.
+
+Theorem C14_loft_transfer :
+  forall (tol : Q) (curves : list (obj Q)) (dist : list Q),
+         resmap objQ2R (loft tol curves dist) = loft (Q2R tol) (map objQ2R curves) (map Q2R dist).
+Proof. exact @loft_transfer. Qed.
+Print Assumptions C14_loft_transfer.
+
+Theorem C14_vloft_transfer :
+  forall (tol : Q) (surfs : list (obj Q)) (dist : list Q),
+         resmap objQ2R (vloft tol surfs dist) = vloft (Q2R tol) (map objQ2R surfs) (map Q2R dist).
+Proof. exact @vloft_transfer. Qed.
+Print Assumptions C14_vloft_transfer.
+
+Theorem C14_volume_interpolate_transfer :
+  forall (tol : Q) (bu bv bw : basis Q) (us vs ws : list Q) (x : list (list Q)),
+         resmap objQ2R (volume_interpolate tol bu bv bw us vs ws x) =
+         volume_interpolate (Q2R tol) (basisQ2R bu) (basisQ2R bv) (basisQ2R bw) (map Q2R us) 
+           (map Q2R vs) (map Q2R ws) (map (map Q2R) x).
+Proof. exact @volume_interpolate_transfer. Qed.
+Print Assumptions C14_volume_interpolate_transfer.
+
+Theorem C14_surface_lsq_transfer :
+  forall (tol : Q) (bu bv : basis Q) (us vs : list Q) (x : list (list Q)),
+         resmap objQ2R (surface_lsq tol bu bv us vs x) =
+         surface_lsq (Q2R tol) (basisQ2R bu) (basisQ2R bv) (map Q2R us) (map Q2R vs) (map (map Q2R) x).
+Proof. exact @surface_lsq_transfer. Qed.
+Print Assumptions C14_surface_lsq_transfer.
+
+Theorem C14_volume_lsq_transfer :
+  forall (tol : Q) (bu bv bw : basis Q) (us vs ws : list Q) (x : list (list Q)),
+         resmap objQ2R (volume_lsq tol bu bv bw us vs ws x) =
+         volume_lsq (Q2R tol) (basisQ2R bu) (basisQ2R bv) (basisQ2R bw) (map Q2R us) (map Q2R vs) 
+           (map Q2R ws) (map (map Q2R) x).
+Proof. exact @volume_lsq_transfer. Qed.
+Print Assumptions C14_volume_lsq_transfer.
+
+Theorem C14_cubic_periodic_transfer :
+  forall (tol : Q) (t : list Q) (x : list (list Q)),
+         resmap objQ2R (cubic_periodic tol t x) = cubic_periodic (Q2R tol) (map Q2R t) (map (map Q2R) x).
+Proof. exact @cubic_periodic_transfer. Qed.
+Print Assumptions C14_cubic_periodic_transfer.
 
